@@ -1,0 +1,66 @@
+//go:build verif
+
+package keyper
+
+import (
+	"context"
+
+	"github.com/jackc/pgx/v4"
+	"github.com/jackc/pgx/v4/pgxpool"
+	"github.com/tendermint/tendermint/rpc/client"
+
+	"github.com/shutter-network/rolling-shutter/rolling-shutter/keyper/database"
+	"github.com/shutter-network/rolling-shutter/rolling-shutter/keyper/fx"
+	"github.com/shutter-network/rolling-shutter/rolling-shutter/keyper/kprconfig"
+	"github.com/shutter-network/rolling-shutter/rolling-shutter/keyper/smobserver"
+)
+
+// VerifShuttermintLoop is the part of a KeyperCore that operateShuttermint works on: the
+// config, the database pool, the shuttermint client, the RPC message sender and the volatile
+// ShuttermintState. A new value is what a freshly started keyper process has.
+type VerifShuttermintLoop struct {
+	core *KeyperCore
+}
+
+// VerifNewShuttermintLoop builds the fields exactly as KeyperCore.Start does, with the given
+// client in place of the HTTP client.
+func VerifNewShuttermintLoop(config *kprconfig.Config, dbpool *pgxpool.Pool, shmcl client.Client) *VerifShuttermintLoop {
+	core := &KeyperCore{config: config, dbpool: dbpool}
+	core.shuttermintClient = shmcl
+	core.messageSender = fx.NewRPCMessageSender(shmcl, config.Ethereum.PrivateKey.Key)
+	core.shuttermintState = smobserver.NewShuttermintState(config)
+	return &VerifShuttermintLoop{core: core}
+}
+
+// Sync is the first step of one iteration of operateShuttermint.
+func (v *VerifShuttermintLoop) Sync(ctx context.Context) error {
+	kpr := v.core
+	return smobserver.SyncAppWithDB(ctx, kpr.shuttermintClient, kpr.dbpool, kpr.shuttermintState)
+}
+
+// HandleOnChainChanges is the second step (one database transaction around handleOnChainChanges).
+func (v *VerifShuttermintLoop) HandleOnChainChanges(ctx context.Context, syncBlockNumber uint64) error {
+	kpr := v.core
+	return kpr.dbpool.BeginFunc(ctx, func(tx pgx.Tx) error {
+		return kpr.handleOnChainChanges(ctx, tx, syncBlockNumber)
+	})
+}
+
+// SendShutterMessages is the third step.
+func (v *VerifShuttermintLoop) SendShutterMessages(ctx context.Context) error {
+	kpr := v.core
+	return fx.SendShutterMessages(ctx, database.New(kpr.dbpool), &kpr.messageSender)
+}
+
+// Iteration is the body of the loop of operateShuttermint for the given main chain block
+// number (the loop obtains it from the block sync client and sleeps between iterations); an
+// error ends the loop, as it does there.
+func (v *VerifShuttermintLoop) Iteration(ctx context.Context, syncBlockNumber uint64) error {
+	if err := v.Sync(ctx); err != nil {
+		return err
+	}
+	if err := v.HandleOnChainChanges(ctx, syncBlockNumber); err != nil {
+		return err
+	}
+	return v.SendShutterMessages(ctx)
+}
